@@ -246,10 +246,11 @@ func runC12(r *mc.Run) {
 	r.Assumptions = []string{"execution-layer grant amounts are non-negative", "vote infos carry the powers of the reference validator set"}
 	completed := depth
 	for _, c := range c12Configs(r.Thorough()) {
-		e := &engb.Explorer{Run: r, NewRoot: c.newRoot, Menu: c12Menu(c, r.Thorough()), Monitor: c12Monitor(r, c), Depth: depth, WantMid: true}
+		e := &engb.Explorer{Run: r, NewRoot: c.newRoot, Menu: c12Menu(c, r.Thorough()), Monitor: c12Monitor(r, c), Depth: depth, ConformanceDepth: 2, WantMid: true}
 		if err := e.Explore(); err != nil {
 			panic(err)
 		}
+		runConformance(r, c, e)
 		if e.Completed < completed {
 			completed = e.Completed
 		}
